@@ -199,6 +199,52 @@ struct SNone { id: u8, user_id: u8, userName: u8, URL: u8, _private: u8 }
 #[derive(serde::Serialize)]
 enum ENone { Active, InProgress, Snake_Case, lower }
 
+// other legal spellings: parenthesised serialize / deserialize forms, rename_all_fields, data-carrying variants
+#[allow(dead_code)]
+#[derive(serde::Serialize, Default)]
+#[serde(rename_all(serialize = "camelCase", deserialize = "SCREAMING_SNAKE_CASE"))]
+struct SParen {
+    user_id: u8,
+    #[serde(rename(serialize = "ser_name", deserialize = "de_name"))]
+    a: u8,
+    #[serde(rename(deserialize = "de_only"))]
+    b_c: u8,
+    #[serde(rename(deserialize = "d2", serialize = "s2"))]
+    d_e: u8,
+}
+#[allow(dead_code)]
+#[derive(serde::Serialize, Default)]
+#[serde(rename_all(deserialize = "camelCase"))]
+struct SDeOnly {
+    user_id: u8,
+    first_last_name: u8,
+}
+#[allow(dead_code)]
+#[derive(serde::Serialize)]
+#[serde(rename_all = "snake_case", rename_all_fields = "camelCase")]
+enum EData {
+    TaskStarted(u32, u8),
+    Moved { to_x: i32 },
+    QueueEmpty,
+    #[serde(rename = "DONE")]
+    Finished(u8),
+}
+#[allow(dead_code)]
+#[derive(serde::Serialize)]
+#[serde(rename_all_fields = "camelCase")]
+enum EFieldsOnly {
+    TaskStarted { to_x: i32 },
+    Idle,
+}
+/// wire name of a variant: the string itself, or the single key of the externally tagged object
+fn variant_name<T: serde::Serialize>(v: &T) -> String {
+    match serde_json::to_value(v).unwrap() {
+        Value::String(s) => s,
+        Value::Object(m) => m.keys().next().unwrap().clone(),
+        other => other.to_string(),
+    }
+}
+
 fn keys_of<T: serde::Serialize>(v: &T) -> Vec<String> {
     // {"k1":0,"k2":0}: every value is 0 and no key holds a quote or a comma
     let s = serde_json::to_string(v).unwrap();
@@ -217,6 +263,12 @@ pub fn real_serde(case: &Value) -> Value {
         "snake_case": keys_of(&SSnake::default()), "SCREAMING_SNAKE_CASE": keys_of(&SScreaming::default()),
         "kebab-case": keys_of(&SKebab::default()), "SCREAMING-KEBAB-CASE": keys_of(&SScreamingKebab::default()),
         "": keys_of(&SNone::default())},
+      "extra": {
+        "paren": keys_of(&SParen::default()),
+        "deonly": keys_of(&SDeOnly::default()),
+        "data": [variant_name(&EData::TaskStarted(1, 2)), variant_name(&EData::Moved { to_x: 1 }),
+                 variant_name(&EData::QueueEmpty), variant_name(&EData::Finished(1))],
+        "fieldsonly": [variant_name(&EFieldsOnly::TaskStarted { to_x: 1 }), variant_name(&EFieldsOnly::Idle)]},
       "enum": {
         "lowercase": lits_of(ELower::all()), "UPPERCASE": lits_of(EUpper::all()), "PascalCase": lits_of(EPascal::all()),
         "camelCase": lits_of(ECamel::all()), "snake_case": lits_of(ESnake::all()),
